@@ -500,10 +500,32 @@ def failure_recorded(chk, repo, rule):
         chk.check(bool(rec), rule, sf, h, "caught exception is not recorded in got_exception (the processor cannot report the failed save)", site_text="Saver.save_from: got_exception = e")
         hentry = cfg.nodes_of(h)
         outside = {m for n in list(body) + hentry for m, k in cfg.succ[n] if m not in body and m not in hentry}
-        okr, _ = cfg.every_path(hentry, outside, lambda n: n in rec, "nrx")
+        already = lambda n: n.kind == "guard" and n.test is not None and ("self.got_exception is None", False) in literals(n.test, n.polarity)
+        okr, _ = cfg.every_path(hentry, outside, lambda n: n in rec or already(n), "nrx")
         chk.check(bool(rec) and okr, rule, sf, h, "the handler can be left (for instance by the exception that source.throw() re-raises) before the failure is recorded in got_exception: the processor's final saver check sees nothing", site_text="Saver.save_from: got_exception recorded on every way out of the handler", site={"function": sf.qualname, "rule": "recorded before anything in the handler can raise"})
         ok, _ = handler_paths_pass(cfg, h, lambda n: False, "n")
         chk.check(ok, rule, sf, h, "handler can complete normally: the failed save is not re-raised", site_text="Saver.save_from: handler always raises")
+
+
+    # a failure of close() itself on the way out (final metadata write, final rename) is recorded too
+    fins = [t for t in walk_body(sf.node) if isinstance(t, ast.Try) and t.finalbody]
+    closes = [c for t in fins for st in t.finalbody for c in calls_in(st) if call_name(c) == "self.close"]
+    chk.check(bool(closes), rule, sf, None, "Saver.save_from no longer closes the saver in a finally block", site_text="Saver.save_from: close() in finally")
+    for c in closes:
+        okc = False
+        cur = stmt_of(c)
+        t = enclosing(cur, (ast.Try,))
+        while t is not None and t not in fins:
+            if any(cur is x or any(cur is y for y in ast.walk(x)) for x in t.body):
+                for h in t.handlers:
+                    if h.type is None or norm(h.type) in ("Exception", "BaseException"):
+                        stores = [x for x in ast.walk(h) if isinstance(x, ast.Assign) and any(norm(tg) == "self.got_exception" for tg in x.targets) and h.name and norm(x.value) == h.name]
+                        ends = h.body and isinstance(h.body[-1], ast.Raise)
+                        if stores and ends:
+                            okc = True
+            t = enclosing(t, (ast.Try,))
+        chk.check(okc, rule, sf, stmt_of(c), "a failure of close() on the way out of save_from (final metadata write, rename of the temporary directory) leaves the saver thread without being recorded in got_exception: the processor's final check sees nothing and the failed save is reported as a success",
+                  site_text="Saver.save_from: close() in finally is wrapped - failure recorded, then re-raised", site={"function": sf.qualname, "rule": "close failure recorded"})
 
 
 def r6_failed_save(chk, repo):
@@ -520,6 +542,11 @@ def r6_failed_save(chk, repo):
 
 
 WITNESSES = [
+    W("close failure not recorded (the original defect)", "C04.R6", COMMON,
+      "try:\n                    self.close(wait_for=pending)\n                except Exception as e:\n                    # Closing (last metadata, final rename) can fail too:\n                    # log it for the final check, unless we are failing already\n                    if self.got_exception is None:\n                        self.got_exception = e\n                    raise",
+      "self.close(wait_for=pending)"),
+    W("close failure recorded but swallowed", "C04.R6", COMMON,
+      "if self.got_exception is None:\n                        self.got_exception = e\n                    raise\n", "if self.got_exception is None:\n                        self.got_exception = e\n"),
     W("failure recorded only after throwing it back", "C04.R6", COMMON,
       "self.got_exception = e\n            # Throw the exception back into the mailbox\n            # (hoping that it is still listening...)\n            source.throw(e)",
       "source.throw(e)\n            self.got_exception = e"),
@@ -552,7 +579,7 @@ WITNESSES = [
     W("observer forgets to call result", "C04.R3", COMMON,
       "if f.done():\n                f.result()\n            else:", "if f.done():\n                pass\n            else:"),
     W("close without waiting", "C04.R3", COMMON,
-      "if not self.closed:\n                self.close(wait_for=pending)", "if not self.closed:\n                self.close()"),
+      "if not self.closed:\n                try:\n                    self.close(wait_for=pending)", "if not self.closed:\n                try:\n                    self.close()"),
     W("drop the exception-marker test in find", "C04.R4", COMMON,
       "if \"exception\" in meta:\n                exc = meta[\"exception\"]\n                raise DataNotAvailable(\n                    f\"Data in {backend_name} {backend_key} corrupted due to \"\n                    f\"exception during writing: {exc}.\"\n                )",
       "pass"),
@@ -577,7 +604,7 @@ WITNESSES = [
       '"""Called when closing the spy prematurely, e.g. during exception handling."""\n        self.close()',
       '"""Called when closing the spy prematurely, e.g. during exception handling."""\n        pass'),
     W("save_from leaves the saver open on failure", "C04.R5", COMMON,
-      "finally:\n            if not self.closed:\n                self.close(wait_for=pending)", "finally:\n            pass"),
+      "finally:\n            if not self.closed:\n                try:\n                    self.close(wait_for=pending)", "finally:\n            if False:\n                try:\n                    self.close(wait_for=pending)"),
     W("got_exception not recorded", "C04.R6", COMMON,
       "self.got_exception = e\n", "pass\n"),
     W("save accepts chunks after close", "C04.R6", COMMON,
